@@ -72,7 +72,15 @@ func conflictSet(i int64, seed int64) []file {
 	r := prng.For(seed, "C05", "conflict", i)
 	pick := func(xs ...string) string { return xs[r.Intn(len(xs))] }
 	var fs []file
-	switch i % 20 {
+	switch i % 21 {
+	case 20: // two revisions of a module, and an error that arises in the tree of one of them only while augments are merged (the augment of a module that imports that revision by date brings a node the target has already): it is reported every time, whichever revision the walk over the modules meets first
+		rv := pick("2020-01-01", "2021-01-01")
+		fs = append(fs, file{"t-2020.yang", "module t { namespace \"urn:t\"; prefix t; revision 2020-01-01;\n  container c { leaf x { type string; } }\n}\n"})
+		fs = append(fs, file{"t-2021.yang", "module t { namespace \"urn:t\"; prefix t; revision 2021-01-01;\n  container c { leaf x { type string; } leaf newer { type string; } }\n}\n"})
+		fs = append(fs, file{"a.yang", "module a { namespace \"urn:a\"; prefix a; import t { prefix t; revision-date " + rv + "; }\n  augment /t:c { leaf " + pick("x", "x", "fresh") + " { type int8; } }\n}\n"})
+		if r.Intn(2) == 0 {
+			fs = append(fs, file{"b.yang", "module b { namespace \"urn:b\"; prefix b; import t { prefix t; }\n  augment /t:c { leaf " + pick("x", "other") + " { type int8; } }\n}\n"})
+		}
 	case 19: // submodules that no loaded module includes, chained by links that do not resolve: one includes the other and then imports a module that is missing, the other imports another missing module. Which errors come out must not depend on which of the two is linked first.
 		n := 2 + r.Intn(2)
 		for k := 0; k < n; k++ {
